@@ -1,2 +1,2 @@
-import IstioModel.C04.Driver
-def main (_ : List String) : IO Unit := IstioModel.Wire.run ({} : IstioModel.C04.DState) IstioModel.C04.stepD
+import IstioModel.C04.Driver2
+def main (_ : List String) : IO Unit := IstioModel.Wire.run ({} : IstioModel.C04.PState) IstioModel.C04.stepP
